@@ -32,22 +32,37 @@ def Reachable (cfg : Cfg) (s : R) : Prop := ∃ n c self ops, s = run cfg (newRo
 
 theorem free_returns (cfg : Cfg) (s : R) (h : Free s) (op : Op) : Returns cfg s op := by
   obtain ⟨h1, h2⟩ := h
-  unfold Returns step
-  cases op <;>
-    simp [opM, locked_eq, rlocked_eq, restart, setSeed, setSeedNB, act, M.bind, M.pure, lock, unlock, h1, h2] <;>
-    (repeat' split) <;> simp_all
+  have hb : blocks s op = false := by
+    cases op <;> simp [blocks, Op.lk, h1, h2]
+  unfold Returns
+  rw [step_spec, hb]
+  simp
 
 /-- An operation leaves the mutex free unless it is a `Restart` of the unrepaired code in a phase ≥ Share. -/
 theorem free_preserved (cfg : Cfg) (s : R) (h : Free s) (op : Op)
-    (hr : op = .restart → cfg.restartUnlocksOnReject = true ∨ s.phase < Share) : Free (step cfg s op).1 := by
+    (hr : op = .restart → cfg.restartUnlocksOnReject = true ∨ s.d.phase < Share) : Free (step cfg s op).1 := by
   obtain ⟨h1, h2⟩ := h
-  unfold step Free
-  cases op <;>
-    simp [opM, locked_eq, rlocked_eq, restart, setSeed, setSeedNB, act, M.bind, M.pure, lock, unlock, h1, h2,
-      setPhaseF_mutexHeld, setPhaseF_readers, addNotarizedF_mutexHeld, addNotarizedF_readers,
-      addProposedF_mutexHeld, addProposedF_readers, updateNotarizedF, incTimeoutF, setTimeoutF, addVRFShareF,
-      restartBodyF] at hr ⊢ <;>
-    (repeat' split) <;> simp_all [setPhaseF_mutexHeld, setPhaseF_readers] <;> omega
+  rw [step_spec]
+  split
+  · exact ⟨h1, h2⟩
+  · refine ⟨?_, h2⟩
+    simp only
+    cases op <;> simp only [Op.isRestart, Bool.false_eq_true, if_false, h1]
+    rcases hr rfl with hc | hp
+    · simp [hc]
+    · have : ¬ (s.d.phase ≥ Share) := by omega
+      simp [this]
+
+theorem run_snoc (cfg : Cfg) (s : R) (pre : List Op) (op : Op) :
+    run cfg s (pre ++ [op]) = (step cfg (run cfg s pre) op).1 := by
+  simp [run, List.foldl_append]
+
+/-- induction over histories, last operation first -/
+theorem run_induction (cfg : Cfg) (s0 : R) (P : R → Prop) (h0 : P s0)
+    (hstep : ∀ s op, P s → P (step cfg s op).1) (ops : List Op) : P (run cfg s0 ops) := by
+  induction ops generalizing s0 with
+  | nil => exact h0
+  | cons op ops ih => exact ih _ (hstep _ _ h0)
 
 /-- FULL STATEMENT (false of the code, see `ops_return_false`):
 `∀ s, Reachable Cfg.code s → ∀ op, Returns Cfg.code s op`.
@@ -56,62 +71,62 @@ theorem free_preserved (cfg : Cfg) (s : R) (h : Free s) (op : Op)
 before `Share`) the mutex is free after every operation and every operation returns. -/
 theorem ops_return_partial (n c : Int) (self : Nat) (ops : List Op)
     (hok : ∀ (pre : List Op) (post : List Op), ops = pre ++ Op.restart :: post →
-      (run Cfg.code (newRound n c self) pre).phase < Share) :
+      (run Cfg.code (newRound n c self) pre).d.phase < Share) :
     Free (run Cfg.code (newRound n c self) ops) ∧ ∀ op, Returns Cfg.code (run Cfg.code (newRound n c self) ops) op := by
-  suffices h : Free (run Cfg.code (newRound n c self) ops) from ⟨h, free_returns _ _ h⟩
-  induction ops using List.reverseRecOn with
-  | nil => exact ⟨rfl, rfl⟩
-  | append_singleton pre op ih =>
-    have hpre : Free (run Cfg.code (newRound n c self) pre) := by
-      apply ih
-      intro p q hpq
-      exact hok p (q ++ [op]) (by rw [hpq]; simp)
-    have : run Cfg.code (newRound n c self) (pre ++ [op]) = (step Cfg.code (run Cfg.code (newRound n c self) pre) op).1 := by
-      simp [run, List.foldl_append]
-    rw [this]
+  suffices h : ∀ (k : Nat) (pre post : List Op), pre.length = k → ops = pre ++ post →
+      Free (run Cfg.code (newRound n c self) pre) by
+    have := h ops.length ops [] rfl (by simp)
+    exact ⟨this, free_returns _ _ this⟩
+  intro k
+  induction k with
+  | zero =>
+    intro pre post hl _
+    have : pre = [] := List.eq_nil_of_length_eq_zero hl
+    subst this; exact ⟨rfl, rfl⟩
+  | succ k ih =>
+    intro pre post hl hops
+    have hne : pre ≠ [] := by intro h; rw [h] at hl; simp at hl
+    obtain ⟨pre', op, rfl⟩ : ∃ pre' op, pre = pre' ++ [op] := ⟨pre.dropLast, pre.getLast hne, (List.dropLast_concat_getLast hne).symm⟩
+    have hpre : Free (run Cfg.code (newRound n c self) pre') :=
+      ih pre' (op :: post) (by simp at hl; omega) (by rw [hops]; simp)
+    rw [run_snoc]
     apply free_preserved _ _ hpre
     intro hop
     right
-    exact hok pre [] (by rw [hop])
+    exact hok pre' post (by rw [hops, hop]; simp)
 
 /-- **ops_return_repaired**: with the one-step repair (unlock in the rejected branch of `Restart`) every
 operation returns from every reachable state — this is the full statement, for the repaired control flow. -/
 theorem ops_return_repaired (s : R) (hs : Reachable Cfg.repaired s) (op : Op) : Returns Cfg.repaired s op := by
   obtain ⟨n, c, self, ops, rfl⟩ := hs
   apply free_returns
-  induction ops using List.reverseRecOn with
-  | nil => exact ⟨rfl, rfl⟩
-  | append_singleton pre op ih =>
-    have : run Cfg.repaired (newRound n c self) (pre ++ [op]) = (step Cfg.repaired (run Cfg.repaired (newRound n c self) pre) op).1 := by
-      simp [run, List.foldl_append]
-    rw [this]
-    exact free_preserved _ _ ih _ (fun _ => Or.inl rfl)
+  exact run_induction _ _ Free ⟨rfl, rfl⟩ (fun s op h => free_preserved _ _ h _ (fun _ => Or.inl rfl)) ops
 
-/-- The rejected restart of the code: it answers the error and leaves the write lock held. -/
-theorem rejected_restart_leaks (s : R) (h : Free s) (hp : Share ≤ s.phase) :
+/-- The rejected restart of the code: it answers the error, changes nothing, and leaves the write lock held. -/
+theorem rejected_restart_leaks (s : R) (h : Free s) (hp : Share ≤ s.d.phase) :
     step Cfg.code s .restart = ({ s with mutexHeld := true }, some .errComplete) := by
   obtain ⟨h1, h2⟩ := h
-  have hp' : s.phase ≥ Share := hp
-  simp [step, opM, restart, M.bind, M.pure, lock, h1, h2, Cfg.code, hp']
+  have hp' : s.d.phase ≥ Share := hp
+  rw [step_spec]
+  simp [blocks, Op.lk, h1, h2, Op.body, Op.isRestart, hp', Cfg.code]
 
 /-- Once leaked, the lock stays held for ever: no operation of the code releases a lock it did not take. -/
 theorem leak_permanent (s : R) (h : s.mutexHeld = true) (ops : List Op) : (run Cfg.code s ops).mutexHeld = true := by
-  induction ops generalizing s with
-  | nil => exact h
-  | cons op ops ih =>
-    apply ih
-    unfold step
-    cases op <;>
-      simp [opM, locked_eq, rlocked_eq, restart, setSeed, setSeedNB, act, M.bind, M.pure, lock, h, setPhaseF_mutexHeld,
-        incTimeoutF, setTimeoutF] <;>
-      (repeat' split) <;> simp_all
+  refine run_induction _ _ (fun s => s.mutexHeld = true) h ?_ ops
+  intro s op h
+  rw [step_spec]
+  split
+  · exact h
+  · rename_i hb
+    cases op <;> simp_all [Op.isRestart, blocks, Op.lk]
 
-/-- … and every operation that takes `r.mutex` blocks for ever (shown for the ones the protocol needs next). -/
-theorem leak_blocks (s : R) (h : s.mutexHeld = true) :
-    (step Cfg.code s .getShares).2 = none ∧ (∀ k t, (step Cfg.code s (.addShare k t)).2 = none) ∧
-    (∀ b, (step Cfg.code s (.addNotarized b)).2 = none) ∧ (step Cfg.code s .restart).2 = none ∧
-    (step Cfg.code s .isFinalized).2 = none ∧ (∀ b, (step Cfg.code s (.finalize b)).2 = none) := by
-  simp [step, opM, locked_eq, rlocked_eq, restart, M.bind, lock, h]
+/-- … and every operation that takes `r.mutex` blocks for ever. -/
+theorem leak_blocks (s : R) (h : s.mutexHeld = true) (op : Op) (hop : op.lk ≠ .none)
+    (hs : ∀ seed n, op = .setSeed seed n → s.d.seed = 0) : (step Cfg.code s op).2 = none := by
+  rw [step_spec]
+  have : blocks s op = true := by
+    cases op <;> simp_all [blocks, Op.lk]
+  simp [this]
 
 /-- **ops_return_false** — negation witness of the full statement: after `AddNotarizedBlock; Restart` (the
 restart is rejected: the round is in phase Share) `GetVRFShares` never returns. -/
@@ -120,178 +135,289 @@ theorem ops_return_false :
   ⟨run Cfg.code (newRound 5 1 0) [.addNotarized ⟨7, 2⟩, .restart], ⟨5, 1, 0, _, rfl⟩, .getShares, by
     unfold Returns; decide⟩
 
+/-- a blocked call has no effect on the round at all -/
+theorem blocked_no_effect (cfg : Cfg) (s : R) (op : Op) (h : (step cfg s op).2 = none) : (step cfg s op).1 = s := by
+  rw [step_spec] at h ⊢
+  split at h
+  · rename_i hb; simp [hb]
+  · simp at h
+
 /-! ## phase, sequentially -/
+
+theorem body_phase (op : Op) (d : D) (h1 : ∀ p, op ≠ .resetPhase p) (h2 : op = .restart → Share ≤ d.phase) :
+    d.phase ≤ (op.body d).2.phase := by
+  cases op <;> simp only [Op.body, Int.le_refl]
+  case setPhase p => exact setPhaseF_ge p d
+  case resetPhase p => exact absurd rfl (h1 p)
+  case addShare k t =>
+    unfold addVRFShareF
+    split
+    · exact Int.le_refl _
+    · split
+      · exact Int.le_refl _
+      · exact setPhaseF_ge _ _
+  case addNotarized b => exact addNotarizedF_phase_ge b d
+  case addProposed b => rw [addProposedF_phase]; exact Int.le_refl _
+  case updateNotarized b => exact Int.le_refl _
+  case bestNotarized => split <;> exact Int.le_refl _
+  case bestProposed => split <;> exact Int.le_refl _
+  case restart =>
+    have : d.phase ≥ Share := h2 rfl
+    simp [this]
+  case setFinalizing => split <;> exact Int.le_refl _
+  case resetFinIfNot => split <;> exact Int.le_refl _
+  case setTimeout n => unfold setTimeoutF; split <;> exact Int.le_refl _
+  case incTimeout prrs ranked =>
+    unfold incTimeoutF
+    split
+    · exact Int.le_refl _
+    · simp only; split <;> exact Int.le_refl _
+  case setSeed seed n => split <;> exact Int.le_refl _
 
 /-- **phase_monotone_seq**: no operation lowers the phase, except `ResetPhase` (the explicit reset) and a
 `Restart` issued before sharing (phase < Share). Holds from every state, blocked or not. -/
 theorem phase_monotone_seq (cfg : Cfg) (s : R) (op : Op)
-    (h1 : ∀ p, op ≠ .resetPhase p) (h2 : op = .restart → Share ≤ s.phase) :
-    s.phase ≤ (step cfg s op).1.phase := by
-  unfold step
-  cases op <;>
-    simp [opM, locked_eq, rlocked_eq, restart, setSeed, setSeedNB, act, M.bind, M.pure, lock, unlock,
-      updateNotarizedF, incTimeoutF, setTimeoutF, addVRFShareF] at h1 h2 ⊢ <;>
-    (repeat' split) <;>
-    simp_all [setPhaseF_ge] <;>
-    first
-      | exact setPhaseF_ge _ _
-      | (have := addNotarizedF_phase_ge ‹Blk› { s with mutexHeld := true }; simpa using this)
-      | (rw [addProposedF_phase])
-      | omega
+    (h1 : ∀ p, op ≠ .resetPhase p) (h2 : op = .restart → Share ≤ s.d.phase) :
+    s.d.phase ≤ (step cfg s op).1.d.phase := by
+  rw [step_spec]
+  split
+  · exact Int.le_refl _
+  · exact body_phase op s.d h1 h2
 
 /-- a restart changes the phase only when it is issued before sharing, and then to `ShareVRF` -/
 theorem restart_phase (cfg : Cfg) (s : R) :
-    (step cfg s .restart).1.phase = s.phase ∨ (s.phase < Share ∧ (step cfg s .restart).1.phase = ShareVRF) := by
-  simp only [step, opM, restart, M.bind, lock]
+    (step cfg s .restart).1.d.phase = s.d.phase ∨
+      (s.d.phase < Share ∧ (step cfg s .restart).1.d.phase = ShareVRF) := by
+  rw [step_spec]
   split
   · left; rfl
-  · by_cases hp : s.phase ≥ Share
-    · left; simp only [hp, if_true]; cases cfg.restartUnlocksOnReject <;> rfl
+  · simp only [Op.body]
+    by_cases hp : s.d.phase ≥ Share
+    · left; simp [hp]
     · right; simp only [hp, if_false]; exact ⟨by omega, rfl⟩
 
 /-! ## timeout count -/
 
-/-- FULL STATEMENT (false of the code, see `timeout_monotone_false`): `∀ s op, s.tcount ≤ (step cfg s op).1.tcount`.
+theorem body_tcount (op : Op) (d : D)
+    (hcap : d.cap ≤ 0 ∨ d.tcount ≤ d.cap) (hmax : d.tcount < 9223372036854775807)
+    (hmin : -9223372036854775808 ≤ d.tcount) : d.tcount ≤ (op.body d).2.tcount := by
+  cases op <;> simp only [Op.body, Int.le_refl]
+  case setPhase p => rw [setPhaseF_tcount]; exact Int.le_refl _
+  case addShare k t =>
+    unfold addVRFShareF
+    split
+    · exact Int.le_refl _
+    · split
+      · exact Int.le_refl _
+      · simp only [setPhaseF_tcount]; exact Int.le_refl _
+  case addNotarized b => rw [addNotarizedF_tcount]; exact Int.le_refl _
+  case addProposed b => rw [addProposedF_tcount]; exact Int.le_refl _
+  case updateNotarized b => exact Int.le_refl _
+  case bestNotarized => split <;> exact Int.le_refl _
+  case bestProposed => split <;> exact Int.le_refl _
+  case restart => split <;> exact Int.le_refl _
+  case setFinalizing => split <;> exact Int.le_refl _
+  case resetFinIfNot => split <;> exact Int.le_refl _
+  case setTimeout n => unfold setTimeoutF; split <;> simp only <;> omega
+  case setSeed seed n => split <;> exact Int.le_refl _
+  case incTimeout prrs ranked =>
+    unfold incTimeoutF
+    split
+    · exact Int.le_refl _
+    · simp only
+      have hperm : ∀ (t : D), t.tcount = d.tcount → t.cap = d.cap →
+          d.tcount ≤ checkCapF t.cap (if scanVotes t.self t.votes t.tcount t.perm = t.tcount
+            then wrap64 (scanVotes t.self t.votes t.tcount t.perm + 1) else scanVotes t.self t.votes t.tcount t.perm) := by
+        intro t ht hc
+        have hge := scanVotes_ge t.self t.votes t.tcount t.perm
+        unfold checkCapF
+        split
+        · rename_i heq
+          rw [heq, ht, wrap64_succ hmin hmax, hc]
+          split <;> omega
+        · rw [hc]; split <;> omega
+      split
+      · exact hperm _ rfl rfl
+      · exact hperm _ rfl rfl
+
+/-- FULL STATEMENT (false of the code, see `timeout_monotone_false`): `∀ s op, s.d.tcount ≤ (step cfg s op).1.d.tcount`.
 
 **timeout_monotone_partial**: no operation lowers the timeout count as long as the count is not above a
-configured cap (`cap = 0` means no cap) and is below the largest Go `int`. -/
+configured cap (`cap ≤ 0` means no cap) and is below the largest Go `int`. -/
 theorem timeout_monotone_partial (cfg : Cfg) (s : R) (op : Op)
-    (hcap : s.cap ≤ 0 ∨ s.tcount ≤ s.cap) (hmax : s.tcount < 9223372036854775807)
-    (hmin : -9223372036854775808 ≤ s.tcount) :
-    s.tcount ≤ (step cfg s op).1.tcount := by
-  unfold step
-  cases op <;>
-    simp [opM, locked_eq, rlocked_eq, restart, setSeed, setSeedNB, act, M.bind, M.pure, lock, unlock,
-      updateNotarizedF, setTimeoutF, addVRFShareF, restartBodyF] <;>
-    (repeat' split) <;>
-    simp_all [setPhaseF_tcount, addNotarizedF_tcount, addProposedF_tcount] <;>
-    try omega
-  -- IncrementTimeoutCount
-  rename_i prrs ranked
-  unfold incTimeoutF
+    (hcap : s.d.cap ≤ 0 ∨ s.d.tcount ≤ s.d.cap) (hmax : s.d.tcount < 9223372036854775807)
+    (hmin : -9223372036854775808 ≤ s.d.tcount) :
+    s.d.tcount ≤ (step cfg s op).1.d.tcount := by
+  rw [step_spec]
   split
   · exact Int.le_refl _
-  · simp only
-    have hperm : ∀ (t : R), t.tcount = s.tcount → t.cap = s.cap →
-        s.tcount ≤ checkCapF t.cap (if scanVotes t.self t.votes t.tcount t.perm = t.tcount
-          then wrap64 (scanVotes t.self t.votes t.tcount t.perm + 1) else scanVotes t.self t.votes t.tcount t.perm) := by
-      intro t ht hc
-      have hge := scanVotes_ge t.self t.votes t.tcount t.perm
-      unfold checkCapF
-      split
-      · rename_i heq
-        rw [heq, ht, wrap64_succ hmin hmax, hc]
-        split <;> omega
-      · rw [hc]; split <;> omega
-    split
-    · exact hperm _ rfl rfl
-    · exact hperm _ rfl rfl
+  · exact body_tcount op s.d hcap hmax hmin
 
-/-- with no cap configured the count is monotone along every history (as long as it stays in range) -/
-theorem timeout_monotone_uncapped (cfg : Cfg) (s : R) (op : Op) (hcap : s.cap = 0)
-    (hmax : s.tcount < 9223372036854775807) (hmin : -9223372036854775808 ≤ s.tcount) :
-    s.tcount ≤ (step cfg s op).1.tcount :=
+/-- with no cap configured the count is monotone under every operation (as long as it stays in range) -/
+theorem timeout_monotone_uncapped (cfg : Cfg) (s : R) (op : Op) (hcap : s.d.cap = 0)
+    (hmax : s.d.tcount < 9223372036854775807) (hmin : -9223372036854775808 ≤ s.d.tcount) :
+    s.d.tcount ≤ (step cfg s op).1.d.tcount :=
   timeout_monotone_partial cfg s op (Or.inl (by omega)) hmax hmin
 
 /-- **timeout_monotone_false** — negation witness: with `timeout_cap = 1` (the value in
 `docker.local/config/0chain.yaml`), `SetTimeoutCount(5)` then `IncrementTimeoutCount` leaves the count at 1. -/
 theorem timeout_monotone_false :
-    ∃ s op, Reachable Cfg.code s ∧ (step Cfg.code s op).1.tcount < s.tcount :=
+    ∃ s op, Reachable Cfg.code s ∧ (step Cfg.code s op).1.d.tcount < s.d.tcount :=
   ⟨run Cfg.code (newRound 5 1 0) [.setTimeout 5], .incTimeout 77 [0], ⟨5, 1, 0, _, rfl⟩, by decide⟩
 
 /-! ## VRF shares -/
 
+theorem body_shares (op : Op) (d : D) :
+    (op.body d).2.shares = d.shares ∨ (op.body d).2.shares = [] ∨
+    ∃ k t, op = .addShare k t ∧ (d.shares.length : Int) < t ∧ k ∉ d.shares ∧ (op.body d).2.shares = d.shares ++ [k] ∧
+      (op.body d).1 = .bool true := by
+  cases op <;> simp only [Op.body, true_or]
+  case setPhase p => left; exact setPhaseF_shares p d
+  case addShare k t =>
+    unfold addVRFShareF
+    split
+    · left; rfl
+    · split
+      · left; rfl
+      · rename_i h1 h2
+        right; right
+        exact ⟨k, t, rfl, by omega, by simpa using h2, by simp, rfl⟩
+  case addNotarized b => left; exact addNotarizedF_shares b d
+  case addProposed b => left; exact addProposedF_shares b d
+  case updateNotarized b => left; rfl
+  case bestNotarized => left; split <;> rfl
+  case bestProposed => left; split <;> rfl
+  case restart => split; · left; rfl
+                  · right; left; rfl
+  case setFinalizing => left; split <;> rfl
+  case resetFinIfNot => left; split <;> rfl
+  case setTimeout n => left; unfold setTimeoutF; split <;> rfl
+  case incTimeout prrs ranked =>
+    left; unfold incTimeoutF
+    split
+    · rfl
+    · simp only; split <;> rfl
+  case setSeed seed n => left; split <;> rfl
+
 /-- **one_per_miner**: the share map never holds two shares of one miner (keys without duplicates),
 along every history. -/
-theorem shares_nodup_step (cfg : Cfg) (s : R) (op : Op) (h : s.shares.Nodup) : (step cfg s op).1.shares.Nodup := by
-  unfold step
-  cases op <;>
-    simp [opM, locked_eq, rlocked_eq, restart, setSeed, setSeedNB, act, M.bind, M.pure, lock, unlock,
-      updateNotarizedF, incTimeoutF, setTimeoutF, addVRFShareF, restartBodyF] <;>
-    (repeat' split) <;>
-    simp_all [setPhaseF_shares, addNotarizedF_shares, addProposedF_shares, List.nodup_append]
+theorem shares_nodup_step (cfg : Cfg) (s : R) (op : Op) (h : s.d.shares.Nodup) : (step cfg s op).1.d.shares.Nodup := by
+  rw [step_spec]
+  split
+  · exact h
+  · simp only
+    rcases body_shares op s.d with h1 | h1 | ⟨k, t, _, _, hk, h1, _⟩
+    · rw [h1]; exact h
+    · rw [h1]; exact List.nodup_nil
+    · rw [h1]
+      rw [List.nodup_append]
+      refine ⟨h, by simp, ?_⟩
+      intro a ha b hb
+      simp at hb
+      subst hb
+      intro hab; subst hab; exact hk ha
 
-theorem one_per_miner (cfg : Cfg) (s : R) (hs : Reachable cfg s) : s.shares.Nodup := by
+theorem one_per_miner (cfg : Cfg) (s : R) (hs : Reachable cfg s) : s.d.shares.Nodup := by
   obtain ⟨n, c, self, ops, rfl⟩ := hs
-  induction ops using List.reverseRecOn with
-  | nil => exact List.nodup_nil
-  | append_singleton pre op ih =>
-    have : run cfg (newRound n c self) (pre ++ [op]) = (step cfg (run cfg (newRound n c self) pre) op).1 := by
-      simp [run, List.foldl_append]
-    rw [this]; exact shares_nodup_step _ _ _ ih
+  exact run_induction _ _ (fun s => s.d.shares.Nodup) List.nodup_nil (fun s op h => shares_nodup_step _ _ _ h) ops
 
-/-- the largest threshold any `AddVRFShare` of the history was called with -/
-def maxThreshold : List Op → Int
-  | [] => 0
-  | .addShare _ t :: ops => max t (maxThreshold ops)
-  | _ :: ops => maxThreshold ops
-
-theorem shares_le_step (cfg : Cfg) (s : R) (op : Op) (T : Int) (h : (s.shares.length : Int) ≤ T)
-    (hT : 0 ≤ T) (hop : ∀ k t, op = .addShare k t → t ≤ T) : ((step cfg s op).1.shares.length : Int) ≤ T := by
-  unfold step
-  cases op <;>
-    simp [opM, locked_eq, rlocked_eq, restart, setSeed, setSeedNB, act, M.bind, M.pure, lock, unlock,
-      updateNotarizedF, incTimeoutF, setTimeoutF, addVRFShareF, restartBodyF] at hop ⊢ <;>
-    (repeat' split) <;>
-    simp_all [setPhaseF_shares, addNotarizedF_shares, addProposedF_shares] <;>
-    omega
+theorem shares_le_step (cfg : Cfg) (s : R) (op : Op) (T : Int) (h : (s.d.shares.length : Int) ≤ T)
+    (hT : 0 ≤ T) (hop : ∀ k t, op = .addShare k t → t ≤ T) : ((step cfg s op).1.d.shares.length : Int) ≤ T := by
+  rw [step_spec]
+  split
+  · exact h
+  · simp only
+    rcases body_shares op s.d with h1 | h1 | ⟨k, t, hk, hlt, _, h1, _⟩
+    · rw [h1]; exact h
+    · rw [h1]; simpa using hT
+    · rw [h1]
+      have := hop k t hk
+      simp only [List.length_append, List.length_cons, List.length_nil]
+      omega
 
 /-- **shares_le_threshold**: a round never holds more shares than the (largest) threshold `AddVRFShare` was
 called with; with one threshold `t` for the whole history: `|shares| ≤ t`. -/
 theorem shares_le_threshold (cfg : Cfg) (n c : Int) (self : Nat) (ops : List Op) (T : Int) (hT : 0 ≤ T)
     (hops : ∀ k t, Op.addShare k t ∈ ops → t ≤ T) :
-    ((run cfg (newRound n c self) ops).shares.length : Int) ≤ T := by
-  induction ops using List.reverseRecOn with
-  | nil => simpa [run, newRound] using hT
-  | append_singleton pre op ih =>
-    have : run cfg (newRound n c self) (pre ++ [op]) = (step cfg (run cfg (newRound n c self) pre) op).1 := by
-      simp [run, List.foldl_append]
-    rw [this]
-    apply shares_le_step _ _ _ _ (ih (fun k t hm => hops k t (by simp [hm]))) hT
-    intro k t hop
-    exact hops k t (by simp [hop])
+    ((run cfg (newRound n c self) ops).d.shares.length : Int) ≤ T := by
+  suffices h : ∀ (s0 : R), (s0.d.shares.length : Int) ≤ T → ((run cfg s0 ops).d.shares.length : Int) ≤ T from
+    h _ (by simpa [newRound] using hT)
+  induction ops with
+  | nil => intro s0 h; exact h
+  | cons op ops ih =>
+    intro s0 h0
+    apply ih (fun k t hm => hops k t (by simp [hm]))
+    exact shares_le_step _ _ _ _ h0 hT (fun k t hop => hops k t (by simp [hop]))
 
 /-- an accepted share was below the threshold of that very call, and is new -/
 theorem addShare_accepts (cfg : Cfg) (s : R) (k : Nat) (t : Int)
     (h : (step cfg s (.addShare k t)).2 = some (.bool true)) :
-    (s.shares.length : Int) < t ∧ k ∉ s.shares ∧ (step cfg s (.addShare k t)).1.shares = s.shares ++ [k] := by
-  unfold step at h ⊢
-  simp only [opM, locked_eq] at h ⊢
+    (s.d.shares.length : Int) < t ∧ k ∉ s.d.shares ∧ (step cfg s (.addShare k t)).1.d.shares = s.d.shares ++ [k] := by
+  rw [step_spec] at h ⊢
   split at h
   · simp at h
-  · simp only [addVRFShareF] at h ⊢
+  · rename_i hb
+    simp only [hb, Bool.false_eq_true, if_false] at h ⊢
+    simp only [Op.body, addVRFShareF] at h ⊢
     split at h
     · simp at h
     · split at h
       · simp at h
       · rename_i h1 h2
-        simp only [setPhaseF_shares] at h1 h2 ⊢
-        simp only [h1, h2, if_false]
-        refine ⟨by omega, by simpa using h2, ?_⟩
-        simp [setPhaseF_shares]
+        simp only [h1, h2, if_false, Bool.false_eq_true]
+        exact ⟨by omega, by simpa using h2, by simp⟩
 
 /-! ## finalization state -/
 
+theorem body_fin (op : Op) (d : D) (h : isFinalizedF d = true) (hop : op ≠ .resetFin) :
+    (op.body d).2.number = d.number ∧ ((op.body d).2.fin = d.fin ∨ (op.body d).2.fin = Finalized) := by
+  cases op <;> simp only [Op.body, true_or, and_self]
+  case setPhase p => exact ⟨setPhaseF_number p d, Or.inl (setPhaseF_fin p d)⟩
+  case addShare k t =>
+    unfold addVRFShareF
+    split
+    · exact ⟨rfl, Or.inl rfl⟩
+    · split
+      · exact ⟨rfl, Or.inl rfl⟩
+      · exact ⟨by simp [setPhaseF_number], Or.inl (by simp [setPhaseF_fin])⟩
+  case addNotarized b => exact ⟨addNotarizedF_number b d, Or.inl (addNotarizedF_fin b d)⟩
+  case addProposed b => exact ⟨addProposedF_number b d, Or.inl (addProposedF_fin b d)⟩
+  case updateNotarized b => exact ⟨rfl, Or.inl rfl⟩
+  case bestNotarized => split <;> exact ⟨rfl, Or.inl rfl⟩
+  case bestProposed => split <;> exact ⟨rfl, Or.inl rfl⟩
+  case restart => split <;> exact ⟨rfl, Or.inl rfl⟩
+  case finalize b => exact ⟨trivial, Or.inr trivial⟩
+  case setFinalizing => simp [h]
+  case setFinalized => exact ⟨trivial, Or.inr trivial⟩
+  case resetFinIfNot => simp [h]
+  case resetFin => exact absurd rfl hop
+  case setTimeout n => unfold setTimeoutF; split <;> exact ⟨rfl, Or.inl rfl⟩
+  case incTimeout prrs ranked =>
+    unfold incTimeoutF
+    split
+    · exact ⟨rfl, Or.inl rfl⟩
+    · simp only; split <;> exact ⟨rfl, Or.inl rfl⟩
+  case setSeed seed n => split <;> exact ⟨rfl, Or.inl rfl⟩
+
 /-- **finalized_stays**: a finalized round (state `Finalized`, or round 0 which always counts as finalized)
-stays so under every operation except the unconditional `ResetFinalizingState`; in particular under
+stays finalized under every operation except the unconditional `ResetFinalizingState`; in particular under
 `ResetFinalizingStateIfNotFinalized`. -/
-theorem finalized_stays (cfg : Cfg) (s : R) (op : Op) (h : isFinalizedF s = true) (hop : op ≠ .resetFin) :
-    isFinalizedF (step cfg s op).1 = true ∧ (step cfg s op).1.fin = s.fin ∨ (step cfg s op).1.fin = Finalized := by
-  unfold step
-  unfold isFinalizedF at h ⊢
-  cases op <;>
-    simp [opM, locked_eq, rlocked_eq, restart, setSeed, setSeedNB, act, M.bind, M.pure, lock, unlock,
-      updateNotarizedF, incTimeoutF, setTimeoutF, addVRFShareF, restartBodyF, isFinalizedF, isFinalizingF] at hop h ⊢ <;>
-    (repeat' split) <;>
-    simp_all [setPhaseF_fin, setPhaseF_number, addNotarizedF_fin, addNotarizedF_number, addProposedF_fin,
-      addProposedF_number, Finalized]
+theorem finalized_stays (cfg : Cfg) (s : R) (op : Op) (h : isFinalizedF s.d = true) (hop : op ≠ .resetFin) :
+    isFinalizedF (step cfg s op).1.d = true := by
+  rw [step_spec]
+  split
+  · exact h
+  · simp only
+    obtain ⟨hn, hf | hf⟩ := body_fin op s.d h hop
+    · unfold isFinalizedF at h ⊢; rw [hn, hf]; exact h
+    · unfold isFinalizedF; rw [hf]; simp
 
 /-- the conditional reset, exactly: it never changes the state of a finalized round, and resets any other. -/
 theorem conditional_reset (cfg : Cfg) (s : R) (h : Free s) :
-    (step cfg s .resetFinIfNot).1.fin = if isFinalizedF s then s.fin else NotFinalized := by
+    (step cfg s .resetFinIfNot).1.d.fin = if isFinalizedF s.d then s.d.fin else NotFinalized := by
   obtain ⟨h1, h2⟩ := h
-  simp only [step, opM, locked_eq, h1, h2]
-  unfold isFinalizedF
+  rw [step_spec]
+  simp only [blocks, Op.lk, h1, h2, Op.body]
   simp only [Bool.false_or, bne_self_eq_false, Bool.false_eq_true, if_false]
   split <;> rfl
 
@@ -322,12 +448,12 @@ theorem phase_monotone_conc_false_two_unlocked :
 
 /-! ## non-vacuity -/
 
-example : Free (run Cfg.code (newRound 5 1 0) [.addShare 1 2, .addNotarized ⟨7, 2⟩, .setFinalizing]) := by decide
-example : (run Cfg.code (newRound 5 1 0) [.addShare 1 2, .addNotarized ⟨7, 2⟩]).phase = Share := by decide
-example : (run Cfg.code (newRound 5 0 0) [.addShare 1 2, .addShare 1 2, .addShare 2 2, .addShare 3 2]).shares = [1, 2] := by decide
-example : isFinalizedF (run Cfg.code (newRound 5 0 0) [.setFinalizing, .finalize ⟨3, 0⟩]) = true := by decide
+example : Free (run Cfg.code (newRound 5 1 0) [.addShare 1 2, .addNotarized ⟨7, 2⟩, .setFinalizing]) := ⟨by decide, by decide⟩
+example : (run Cfg.code (newRound 5 1 0) [.addShare 1 2, .addNotarized ⟨7, 2⟩]).d.phase = Share := by decide
+example : (run Cfg.code (newRound 5 0 0) [.addShare 1 2, .addShare 1 2, .addShare 2 2, .addShare 3 2]).d.shares = [1, 2] := by decide
+example : isFinalizedF (run Cfg.code (newRound 5 0 0) [.setFinalizing, .finalize ⟨3, 0⟩]).d = true := by decide
 example : (step Cfg.code (run Cfg.code (newRound 5 1 0) [.addNotarized ⟨7, 2⟩, .restart]) .getShares).2 = none := by decide
 example : (step Cfg.repaired (run Cfg.repaired (newRound 5 1 0) [.addNotarized ⟨7, 2⟩, .restart]) .getShares).2 = some (.keys []) := by decide
-example : (run Cfg.code (newRound 5 0 2) [.addVote 4 1, .incTimeout 9 [2, 1, 0]]).tcount = 4 := by decide
+example : (run Cfg.code (newRound 5 0 2) [.addVote 4 1, .incTimeout 9 [2, 1, 0]]).d.tcount = 4 := by decide
 
 end ZChain.Round
